@@ -17,6 +17,8 @@ EXPLANATION = (
     'the flags are the specified comparisons, and the worker count is derived by tolerant rounding.  That columns/rows '
     'partition [0, W) and intersect in one element is integer arithmetic over all sizes and is not decided.')
 
+NOT_DECIDED = 'that columns/rows partition [0,W) into equal parts and intersect in exactly one element (integer arithmetic over all sizes)'
+
 
 def run(ctx: Ctx) -> None:
     ctx.do(A.rule_det_unif, 'KAISA')
